@@ -296,9 +296,9 @@ impl Gen {
     }
 
     pub fn rate(&mut self) -> String {
-        let rates = ["0", "0.003", "0.01", "0.010", "0.1", "0.25", "0.5", "1", "0.0005", "0.02", "0.15"];
+        let rates = ["0", "0.003", "0.01", "0.010", "0.1", "0.25", "0.5", "1", "0.0005", "0.02", "0.15", "0.0126", "0.125", "0.0349"];
         if self.profile == Profile::Malformed && self.rng.pct(20) {
-            return self.rng.pick(&["-0.1", "abc", "1e-3", "", " 0.1", "0..1"]).to_string();
+            return self.rng.pick(&["-0.1", "abc", "1e-3", "", " 0.1", "0..1", "0.02 ", "\t0.1", "+0.1", "0.1_", "_0.1", "0.1\n", "0,1"]).to_string();
         }
         if self.rng.pct(3) {
             return "-0.1".to_string();
@@ -415,7 +415,20 @@ impl Gen {
                     m.ask_fee_rate = Some("".into());
                     m.ask_fee_account = Some("".into());
                 }
-                9 => m.bid_fee_rate = Some(self.rng.pick(&["abc", "", "1e3", "0.5", "-1", ".5", "5.", "1_0", "0.1234567890123456789012345678"]).to_string()),
+                9 => {
+                    let r = self.rng.pick(&["abc", "", "1e3", "0.5", "-1", ".5", "5.", "1_0", "0.1234567890123456789012345678", "0.02 ", " 0.02", "+0.5", "0.5\n", "0x1"]).to_string();
+                    if self.rng.pct(50) {
+                        m.bid_fee_rate = Some(r);
+                        if m.bid_fee_account.is_none() {
+                            m.bid_fee_account = Some("frank".into());
+                        }
+                    } else {
+                        m.ask_fee_rate = Some(r);
+                        if m.ask_fee_account.is_none() {
+                            m.ask_fee_account = Some("frank".into());
+                        }
+                    }
+                }
                 10 => m.bid_fee_account = Some(self.rng.pick(&["ab", "Frank", "", "frank", "a_very_long_address_that_is_fine_0123456789"]).to_string()),
                 11 => m.approvers.push(self.rng.pick(&["ab", "Carol", "", "zed"]).to_string()),
                 12 => m.executors.push(self.rng.pick(&["x", "ERIN", "zed"]).to_string()),
@@ -755,7 +768,19 @@ impl Gen {
         }
         let fee_change = |r: &mut Rng, cur: &Option<FeeInfo>| -> (Option<String>, Option<String>) {
             let acct = r.pick(&["frank", "erin", "alice", "carol", "Bad"]).to_string();
-            match r.below(8) {
+            match r.below(10) {
+                8 | 9 => {
+                    // the current rate written with one decimal place fewer (rounded): a different number
+                    // unless the dropped digit was a zero
+                    let rounded = cur.as_ref().and_then(|f| D::parse(&f.rate)).and_then(|d| {
+                        if d.s == 0 {
+                            return None;
+                        }
+                        let m = (d.m + 5) / 10;
+                        Some(D { m, s: d.s - 1 }.render())
+                    });
+                    (rounded.or(Some("0.01".into())), Some(acct))
+                }
                 0 => (cur.as_ref().map(|f| f.rate.clone()).or(Some("0.01".into())), Some(acct)),
                 1 => (cur.as_ref().map(|f| respell(r, &f.rate)).or(Some("0.02".into())), Some(acct)),
                 2 => (Some(r.pick(&["0.003", "0.01", "0.25", "0.5", "0"]).to_string()), Some(acct)),
@@ -763,7 +788,7 @@ impl Gen {
                 4 => (Some("0.01".into()), None),
                 5 => (None, Some(acct)),
                 6 => (Some(r.pick(&["abc", "", "1e-2"]).to_string()), Some(acct)),
-                _ => (Some("0.01".into()), Some("".into())),
+                _ => (cur.as_ref().map(|f| f.rate.clone()).or(Some("0.01".into())), Some("".into())),
             }
         };
         if r.pct(35) {
